@@ -17,7 +17,7 @@ def obligations(tier):
     t = 300 if tier == "quick" else 1500
     for ti, name in enumerate(["create_table", "alter_fk", "create_index", "create_sequence"]):
         obs.append(Ob(f"C05.lines/{name}", "pre", "c_lines", {"VF_T": ti, "VF_NBREAK": 2 if tier == "quick" else 3}, t, FN_PRE,
-                      "line breaks at up to 2 [thorough 3] token gaps (symbolic positions), continuation indent 0/2/4 blanks, optional blank line; same statement as the one-line spelling",
+                      "line breaks at up to 2 [thorough 3] token gaps (symbolic positions), LF or CRLF line ends (symbolic), continuation indent 0/2/4 blanks, optional blank line; same statement as the one-line spelling",
                       known="quote-at-line-start"))
     obs.append(Ob("C05.crlf/parse_from_file-text-mode", "misc", "c_plumb", {}, 200, ["simple_ddl_parser/ddl_parser.py:parse_from_file"],
                   "file input is read in text mode with universal newlines (mode 'r', no newline= argument): CRLF files reach the parser as LF text; replay parses a real CRLF file"))
